@@ -1,5 +1,6 @@
 (* C06 — A memoized rule body runs at most once per input position (packrat bound). *)
 From PegV Require Import Utf8 State Terminals Syntax Fields Literals Model Inv Memo Extracted.
+From PegV Require WellFormed Once.
 
 Theorem C06_facts :
   memo_closed Extracted.rcfg = true /\ Extracted.file_codegen_src_rule_rs = true /\
@@ -44,3 +45,34 @@ Theorem C06_refuted_unwrapped : forall ustate scfg fcfg hk g (ev : evals ustate)
   = (MErr e, gl').
 Proof. intros. rewrite memo_miss by auto. rewrite H1. reflexivity. Qed.
 Print Assumptions C06_refuted_unwrapped.
+
+(* ---- the packrat bound itself -------------------------------------------------------------
+   For EVERY grammar that passes the well-formedness check of C01 (no left recursion, no closure
+   over a body that can succeed without consuming) and has no @leftrec rule, any subset of rules
+   marked @memoize, arbitrary - also stateful - check and extern functions, every setting of the
+   other decision points, every rule, input and recursion bound: when the parse returns, the log of
+   started body evaluations of memoized rules has no duplicate - no memoized body ran twice at one
+   offset, succeeding or failing -, every entry is a memoized rule of the grammar at an offset
+   inside the input, hence there are at most (memoized rules) x (input length + 1) of them.
+   (memo_closed: the wrapper stores failures too - the fact regenerated from rule.rs; without it
+   the statement is refuted by C06_refuted_unwrapped.)  The proof walks every template with the
+   invariant: an evaluation entered at offset p in a context of rank bound k only starts
+   evaluations at offsets > p, or at p for rules of rank < k - never the ones in progress. *)
+Theorem C06_at_most_once :
+  forall (ustate : Type) (scfg : state_cfg) (tcfg : term_cfg) (fcfg : fields_cfg) (hk : hooks ustate)
+         (g : grammar) (nul : name -> bool) (rk : WellFormed.runit -> nat),
+    WellFormed.wf_check g nul rk = true ->
+    (forall r, In (GRule r) g -> fl_left_recursive (flags_of (r_directives r)) = false) ->
+    forall n rule_name input u,
+    match m_parse ustate scfg tcfg fcfg Extracted.rcfg hk g n rule_name input u with
+    | (MOk _ _, gl') | (MErr _, gl') =>
+      NoDup (g_evals gl') /\
+      Forall (fun e => In (fst e) (Once.mnames g) /\ snd e <= length input) (g_evals gl') /\
+      length (g_evals gl') <= length (Once.mnames g) * S (length input)
+    | _ => True
+    end.
+Proof.
+  intros ustate scfg tcfg fcfg hk g nul rk W NoLR.
+  exact (Once.at_most_once ustate scfg tcfg fcfg Extracted.rcfg hk g nul rk W NoLR eq_refl).
+Qed.
+Print Assumptions C06_at_most_once.
